@@ -38,10 +38,9 @@ def router : Component where
       fin m' r spec ("static " ++ (if l.any (fun ip => st.s.pool.contains ip) then "static-in-auto-range " else "") ++ (if l.length > 1 then "multi " else ""))
     | ["auto"] =>
       let (m', r) := st.m.addNIC []
-      let freeIn := st.s.pool.filter (fun ip => !st.s.taken.contains ip ∧ st.s.inSubnet ip)
       let freeOut := st.s.pool.filter (fun ip => !st.s.taken.contains ip ∧ !st.s.inSubnet ip)
       let spec := "anyip:" ++ showIP st.s.netIP ++ "/" ++ toString st.s.maskBits ++ ":!" ++ showIPs st.s.taken ++
-        (if freeIn.isEmpty ∧ freeOut.isEmpty then ";exhausted" else "") ++ (if !freeOut.isEmpty then ";beyond" else "")
+        (if st.s.exhaustedOk then ";exhausted" else "") ++ (if !freeOut.isEmpty then ";beyond" else "")
       let skipped := match r with | .ok [ip] => decide (ip % 256 > st.m.lastID + 1) | _ => false
       fin m' r spec ("auto " ++ (if skipped then "auto-skips-static " else "") ++ (match r with | .exhausted => "exhausted " | .beyondSubnet => "auto-beyond " | _ => ""))
     | _ => (st, "bad-op")
